@@ -183,6 +183,15 @@ def gen_monty(rng, w, cap, digs, n):
     for m0 in (1, 3, 5, 7, 9, 11, 13, 15, B - 1, B - 3, B // 2 + 1, B // 2 - 1):
         out.append("nt_mod pre_monty 0 %x" % m0)
         out.append("nt_mod pre_monty 0 %x" % (m0 + B * 5))
+    # the carry branch INSIDE the contract (T >= B^k needs m next to B^k and a next to m*R) and the final subtraction at equality,
+    # for every REDC variant (seeded change: carry subtraction dropped in bn_mod_monty_basic / bn_modn_low)
+    for k in (1, 2, 3, max(1, digs // 2)):
+        R = B ** k
+        for m in (R - 1, R - 3, R - 1 - 2 * rng.below(B // 4)):
+            for v in ("monty", "monty_basic", "monty_comba", "monty_back"):
+                for a in (m * R - 1, m * R - 2, m * R - m, m * R - 1 - rng.below(m), (m - 1) * R + rng.below(R), m * (R - 1), m):
+                    if 0 <= a and _used(a, w) <= min(digs, cap // 2 - 1):
+                        out.append("nt_mod %s %x %x" % (v, a, m))
     for _ in range(n):
         k = rng.choice([1, 1, 2, 2, 3, 1 + rng.below(max(1, digs // 2)), digs if rng.chance(1, 2) else max(1, digs // 2)])
         m = odd_modulus(rng, w, k)
